@@ -797,7 +797,108 @@ pub fn raw_last_state(shared: &ckb_shared::Shared, rt: &tokio::runtime::Runtime)
     Ok(sent.into_iter().next())
 }
 
+/// Raw GetBlocksProof round trip on the calling thread: `last_hash` is the tip the caller sees
+/// right now, the requested blocks are up to three of its ancestors.
+pub fn raw_blocks_proof(shared: &ckb_shared::Shared, rt: &tokio::runtime::Runtime, salt: u64) -> Result<Option<Bytes>, String> {
+    use ckb_store::ChainStore;
+    let (last, wanted) = {
+        let snap = shared.snapshot();
+        let tip_n = snap.tip_number();
+        if tip_n < 2 {
+            return Ok(None);
+        }
+        let mut wanted = vec![];
+        for n in [1 + salt % (tip_n - 1), tip_n - 1, 1 + (salt / 7) % (tip_n - 1)] {
+            if let Some(x) = snap.get_block_hash(n) {
+                if !wanted.contains(&x) {
+                    wanted.push(x);
+                }
+            }
+        }
+        (snap.tip_hash(), wanted)
+    };
+    let ctx = Arc::new(RecCtx::new());
+    let nc: Arc<dyn CKBProtocolContext + Sync> = ctx.clone();
+    let mut proto = LightClientProtocol::new(shared.clone());
+    let content = packed::GetBlocksProof::new_builder().last_hash(last).block_hashes(wanted).build();
+    let msg = packed::LightClientMessage::new_builder().set(content).build();
+    let res = catch_unwind(AssertUnwindSafe(|| rt.block_on(proto.received(nc, PeerIndex::new(9), msg.as_bytes()))));
+    if let Err(p) = res {
+        let msg = p.downcast_ref::<&str>().map(|s| s.to_string()).or_else(|| p.downcast_ref::<String>().cloned()).unwrap_or_default();
+        return Err(msg);
+    }
+    let sent = ctx.sent.lock().unwrap().clone();
+    Ok(sent.into_iter().next())
+}
+
 impl Light {
+    /// Judge the GetBlocksProof replies of the poller thread: whatever chain the handler saw, the
+    /// reply must be consistent in itself: `last_header` was the tip at some moment, its chain
+    /// root / extension are those of that block on its own chain, every proved header is an
+    /// ancestor of it and the MMR proof verifies against the model root of that chain.
+    pub fn judge_concurrent_blocks_proofs(&mut self, rc: &RefChain, delivered: &HashSet<H>, acceptable: &HashSet<H>, replies: Vec<Result<Option<Bytes>, String>>, c: &Ctx) {
+        let kind = "blocks_proof_during_reorg";
+        let req = json!({"kind": "GetBlocksProof", "last_hash": "the tip the requester saw", "concurrent_with": "block deliveries that reorganise the chain"});
+        let mut views: HashMap<H, View> = HashMap::new();
+        for rep in replies {
+            self.r.count("light.concurrent.blocks_proof_requests");
+            self.r.eval();
+            let data = match rep {
+                Err(m) => {
+                    let out = Outcome::Panic(m.clone());
+                    self.r.violation(&Self::panic_sig(kind, "valid_request", &m), format!("GetBlocksProof handler panicked while the chain was reorganising: {m}"), self.wit(c, &req, &out, json!({})));
+                    continue;
+                }
+                Ok(None) => continue,
+                Ok(Some(d)) => d,
+            };
+            let out = Outcome::Replies(vec![data.clone()]);
+            let rep = match decode_blocks_reply(&data) {
+                Ok(r) => r,
+                Err(e) => {
+                    self.unparsable(c, kind, &req, &out, &e);
+                    continue;
+                }
+            };
+            let hash = blake2b_256(rep.last_header.header().as_slice());
+            if !acceptable.contains(&hash) {
+                self.r.violation(
+                    &format!("light.{kind}.last_header_was_never_the_tip"),
+                    format!("GetBlocksProof (last_hash = a tip) answered with last_header {} which was not the tip at any moment of the episode", hx(&hash)),
+                    self.wit(c, &req, &out, json!({"acceptable_tips": acceptable.iter().map(hx).collect::<Vec<_>>() })),
+                );
+                continue;
+            }
+            let v = views.entry(hash).or_insert_with(|| View::build(rc, hash, delivered));
+            let Some((lh, _)) = self.judge_last_header(v, c, kind, LastClass::Tip, &hash, &rep.last_header, &req, &out) else { continue };
+            let mut leaves: Vec<(u64, Digest)> = vec![];
+            let mut bad = false;
+            for hd in &rep.headers {
+                let hv = hd.clone().into_view();
+                let hh = h(&hv.hash());
+                match v.num_of.get(&hh) {
+                    Some(&num) if num < lh.number => leaves.push((num, digest_of_header(&hv))),
+                    _ => {
+                        bad = true;
+                        self.r.violation(
+                            &format!("light.{kind}.proved_header_not_an_ancestor_of_last_header"),
+                            format!("proved header {} is not a main-chain block below last_header {}#{} on that block's own chain", hx(&hh), hx(&lh.hash), lh.number),
+                            self.wit(c, &req, &out, json!({})),
+                        );
+                    }
+                }
+            }
+            if bad {
+                continue;
+            }
+            if !leaves.is_empty() {
+                self.r.count("light.concurrent.blocks_proofs_with_items");
+            }
+            self.judge_proof(v, c, kind, LastClass::Tip, &lh, &rep.proof, leaves, &req, &out);
+            self.r.count("light.concurrent.blocks_proof_replies_judged");
+        }
+    }
+
     /// Judge the replies a poller thread collected while blocks were delivered: each must name a
     /// block that was the tip at some moment of the episode (`acceptable`), and its chain root,
     /// extension and every other field must be those of that block on its own chain (model view
